@@ -11,6 +11,7 @@ import ast
 import os
 
 from .. import translate
+from . import normalize
 
 GEN = "fairlearn/metrics/_generated_metrics.py"
 MDM = "fairlearn/metrics/_make_derived_metric.py"
@@ -51,7 +52,7 @@ def find_assign(tree, name):
 
 
 def lift_generated(repo):
-    tree = ast.parse(open(os.path.join(repo, GEN)).read())
+    tree = normalize.parse(open(os.path.join(repo, GEN)).read())
     spec = find_assign(tree, "METRICS_SPEC")
     if not isinstance(spec, ast.List):
         raise U(GEN, "METRICS_SPEC is not a list literal")
@@ -80,7 +81,7 @@ def lift_generated(repo):
 
 
 def lift_dispatch(repo):
-    tree = ast.parse(open(os.path.join(repo, MDM)).read())
+    tree = normalize.parse(open(os.path.join(repo, MDM)).read())
     topts = const_str_list(find_assign(tree, "transform_options"), MDM)
     tparams = const_str_list(find_assign(tree, "parameters_for_transforms"), MDM)
     cls = next((n for n in tree.body if isinstance(n, ast.ClassDef) and n.name == "_DerivedMetric"), None)
@@ -124,7 +125,7 @@ def lift_dispatch(repo):
 
 
 def lift_named(repo):
-    tree = ast.parse(open(os.path.join(repo, FM)).read())
+    tree = normalize.parse(open(os.path.join(repo, FM)).read())
     fns = {n.name: n for n in tree.body if isinstance(n, ast.FunctionDef)}
     named, eodds = [], []
     # _get_eo_frame
